@@ -32,8 +32,9 @@ TRUSTED_BASE = ["checks/c03.py (token string <-> nested list, float/int renderin
                 "reads class/tag/coordinates back as exact integers, library == for the dump round trip)"]
 ASSUMPTIONS = ["coordinates are finite numbers (ints / floats with integer values); NaN, inf, strings, booleans, tuples are outside the statement",
                "a 'validation error' is any ValueError (pydantic.ValidationError is one)",
-               "open readings of the statement (multi-line 'strictly forward': first<last vs every step; polygon with no ring) "
-               "are not judged: accept is demanded under the strictest reading, reject under the loosest"]
+               "the one open reading of the statement (multi-line 'strictly forward': first<last vs every step) "
+               "is not judged: accept is demanded under the strict reading, reject under the documented one; a polygon "
+               "(or multi-polygon member) without any ring is invalid under every reading"]
 
 OPEN, CLOSE = -98, -99
 ENTRIES = ["ctor", "model_validate", "gv_json", "gv_dict", "gv_attr", "sound_event"]
@@ -263,7 +264,7 @@ def nontrivial(o):
 MANIFEST = {
     "text": ("GeomValidate.tla represents every coordinate structure -- valid or malformed (wrong arity, wrong nesting, scalars for lists) -- "
              "as a bracket-token string, so one TLC type covers them all, and defines on it Valid (shape, time >= 0, 0 <= frequency <= "
-             "MAX_FREQUENCY, the per-type rules, under three readings of the statement's two open points), Normal / AllowedNormals, and "
+             "MAX_FREQUENCY, the per-type rules, under the readings of the statement's one open point), Normal / AllowedNormals, and "
              "Impl: the validator chain of each of the nine classes (pydantic type layer, first and second field validator, Python "
              "unpacking, second validator not run after the first raised). MC_GeomValidate.tla steps through that chain and TLC checks "
              "Impl accepts iff Valid, Impl's value = Normal, idempotence / validity / point preservation of Normal, and that a fast parser "
@@ -275,7 +276,7 @@ MANIFEST = {
              "agreement of the modes and the JSON dump round trip. Bounded-exhaustive plus random multi-edit structures."),
     "note": ("trusted: TLC, the binder checks/c03.py (token <-> nested list, calls, exact read-back); numbers are integer-valued ints/floats "
              "(NaN, inf, strings, booleans, tuples and fractional values are not generated); 'no object exists' is observed as 'the call "
-             "raised'; where the statement is open (multi-line forward: first<last vs every step; polygon without rings) nothing is demanded; "
+             "raised'; where the statement is open (multi-line forward: first<last vs every step) nothing is demanded; "
              "small-scope hypothesis beyond the enumerated structures"),
     "design_ref": "DESIGN.md section 4 C03",
 }
